@@ -310,7 +310,7 @@ def apply_mod(g, mod, bspec):
 def _exp_str(x):
     if isinstance(x, int) and not isinstance(x, bool):
         return str(x)
-    f = Fraction(x).limit_denominator(64)
+    f = Fraction(x).limit_denominator(10 ** 6)
     if float(f) == x:
         return str(f.numerator) if f.denominator == 1 else f"{f.numerator}/{f.denominator}"
     return repr(x)
@@ -1564,9 +1564,10 @@ def _exotic_cases(rng, tier, n_pow, n_ctl, n_root):
         name = rng.choice(["X", "Y", "Z", "H", "S", "T", "CZ", "CNOT", "SWAP", "ISWAP", "RZ", "PHASE", "RX", "RY", "GPi", "CPHASE", "ZZ"])
         base = {"gate": name}
         base["params"] = _params_for(rng, base, 0.0)
-        q = rng.choice([5, 6, 7, 8, 9, 16])
+        # the property has no bound on q: a ladder across the round numbers where a rationalisation / cap / table would sit
+        q = rng.choice([5, 6, 7, 8, 9, 16] + [17, 31, 32, 33, 63, 64, 65, 99, 100, 101, 127, 128, 129, 255, 256, 257, 360, 999, 1000, 1001, 1024, 4097, 65537])
         pre = rng.choice([[], [], [["dagger"]], [["power", 2]]])
-        post = rng.choice([[], [], [["controlled", 1]], [["power", q]], [["replace", _params_for(rng, base, 0.0)]]])
+        post = rng.choice([[], [], [["controlled", 1]], [["power", q if q <= 64 else 2]], [["replace", _params_for(rng, base, 0.0)]]])
         out.append({"kind": "exotic", "base": base, "chain": pre + [["power", f"1/{q}"]] + post, "tier": tier})
     return out
 
@@ -1957,6 +1958,9 @@ def _corpus():
         {"kind": "exotic", "base": rx, "chain": [["power", -2], ["controlled", 5], ["dagger"]]},
         {"kind": "exotic", "base": s, "chain": [["controlled", 2], ["controlled", 3]]},
         {"kind": "exotic", "base": t, "chain": [["power", "1/8"], ["power", 8]]},
+        {"kind": "exotic", "base": {"gate": "X", "params": []}, "chain": [["power", "1/101"], ["controlled", 1]]},
+        {"kind": "exotic", "base": s, "chain": [["power", "1/257"], ["power", 3]]},
+        {"kind": "exotic", "base": {"gate": "ISWAP", "params": []}, "chain": [["dagger"], ["power", "1/1000"]]},
         {"kind": "exotic", "base": {"gate": "CNOT", "params": []}, "chain": [["power", "1/5"], ["replace", []]]},
         {"kind": "malformed", "base": x, "chain": [["controlled", 0]]},
         {"kind": "malformed", "base": x, "chain": [["controlled", 2], ["controlled", -1], ["dagger"]]},
